@@ -9,6 +9,6 @@ require (
 	pgregory.net/rapid v1.3.0
 )
 
-require golang.org/x/exp v0.0.0-20240404231335-c0f41cb1a7a0 // indirect
+require golang.org/x/exp v0.0.0-20240404231335-c0f41cb1a7a0
 
 replace mltwist => /repo
